@@ -13,7 +13,7 @@ func init() {
 	register(&propertyDef{
 		id:    "C16",
 		title: "preparation is deterministic and insensitive to naming and ordering",
-		rules: []ruleFunc{c16R1, c16R2, c16R3, c16R4, c16R5, c16R6},
+		rules: []ruleFunc{c16R1, c16R2, c16R3, c16R4, c16R5, c16R6, c16R7},
 		decided: "every iteration over a Go map (range over a map, or over reflect.Value.MapKeys()) in the parse and prepare paths has order-insensitive effects: no outer variable is overwritten with a value derived from the current key/value, no outer slice is appended to without a later sort, no non-error value derived from the current element is returned from inside the loop — except under a len==1 guard or a tabled reason (R1); " +
 			"no ambient nondeterminism (time, random numbers, environment, goroutines) is used in these paths outside the tabled generated-identifier and documented built-in functions (R2); every textual step-path pattern matches all step ids the workflow schema admits and captures exactly the step path (R3, regular-language inclusion). Shared: dependency loops never return early with success, so the graph does not depend on which sibling key was walked first (R4 = C02.R2); nothing is remembered between preparations (R5 = C10.R5).",
 		notDecided: "invariance under consistent renaming of steps beyond the textual patterns of R3; equality of two preparations (needs runs); determinism of dependencies (dgraph, pluginsdk).",
